@@ -21,12 +21,12 @@ var mapKeys = []string{"ka", "kb", "kc", "kd", "ke"}
 // namespace when the tree is rendered).
 type cval struct {
 	null   bool
-	raw    interface{}       // primitive / verbatim value
-	want   reflect.Value     // the typed value a primitive setting must produce
-	fields map[*field]*cval  // object addressed to a struct
-	list   []*cval           // list
-	keys   map[string]*cval  // object addressed to a map
-	form   string            // "prim", "fields", "list", "keys", "raw"
+	raw    interface{}      // primitive / verbatim value
+	want   reflect.Value    // the typed value a primitive setting must produce
+	fields map[*field]*cval // object addressed to a struct
+	list   []*cval          // list
+	keys   map[string]*cval // object addressed to a map
+	form   string           // "prim", "fields", "list", "keys", "raw"
 }
 
 func (c *cval) absent() bool { return c == nil || c.null }
